@@ -17,6 +17,9 @@ pub enum Mode {
 	SingleObject,
 	/// `bytes` is a whole container file; `valid` says whether it is an undamaged one
 	Container { valid: bool },
+	/// a LONG stream: `n` datums (drawn from `seed`, size pattern `pattern`: `val::gen_long_vals`) encoded one after the
+	/// other and decoded through ONE `DeserializerState` per path; `bytes` is left empty (derived at execution time)
+	Stream { seed: u64, n: u32, pattern: u8 },
 }
 
 #[derive(Clone, Debug, Serialize, Deserialize, PartialEq)]
@@ -151,6 +154,17 @@ fn tok_label(k: TokKind) -> &'static str {
 	}
 }
 
+fn kind_class(k: &ReaderKind) -> u64 {
+	match k {
+		ReaderKind::Direct(RefillPlan::Whole) => 0,
+		ReaderKind::Direct(RefillPlan::Fixed(1)) => 1,
+		ReaderKind::Direct(RefillPlan::Fixed(k)) if *k < 16 => 2,
+		ReaderKind::Direct(RefillPlan::Fixed(_)) => 3,
+		ReaderKind::Direct(_) => 4,
+		ReaderKind::BufReader { .. } => 5,
+	}
+}
+
 fn class(o: &DecOut) -> &'static str {
 	match &o.res {
 		Ok(_) => "ok",
@@ -158,7 +172,105 @@ fn class(o: &DecOut) -> &'static str {
 	}
 }
 
+pub fn stream_plans(seed: u64) -> Vec<ReaderKind> {
+	let mut rng = Rng::from_seed(seed);
+	let mut plans = vec![
+		ReaderKind::Direct(RefillPlan::Whole),
+		ReaderKind::Direct(RefillPlan::Fixed(1)),
+		ReaderKind::Direct(RefillPlan::Fixed(2 + rng.usize(6))),
+		ReaderKind::Direct(RefillPlan::Fixed(8 + rng.usize(24))),
+		ReaderKind::Direct(RefillPlan::Fixed(*rng.pick(&[64usize, 255, 256, 1000, 4096, 8192]))),
+		ReaderKind::BufReader { cap: 1 + rng.usize(16), plan: RefillPlan::Whole },
+		ReaderKind::BufReader { cap: *rng.pick(&[32usize, 64, 100, 8192]), plan: RefillPlan::Fixed(1 + rng.usize(40)) },
+	];
+	let n = 2 + rng.usize(4);
+	plans.push(ReaderKind::Direct(RefillPlan::Cycle((0..n).map(|_| 1 + rng.usize(20)).collect())));
+	plans
+}
+
 impl C11 {
+	/// LONG streams: many datums through one deserializer state per path. Slice and reader must agree datum by datum.
+	fn exec_stream(&self, scn: &Scn, seed: u64, n: u32, pattern: u8, out: &mut Outcome) {
+		out.count("long_stream_of_datums", 1);
+		let env = Env::build(&scn.schema);
+		let schema = match world::parse_schema(&scn.schema) {
+			Ok(s) => s,
+			Err(e) => {
+				out.fail("harness:schema-rejected", e);
+				return;
+			}
+		};
+		let vals = val::gen_long_vals(seed, &env, &scn.schema, n, pattern);
+		let mut bytes = vec![];
+		for v in &vals {
+			let (b, _) = ref_datum::encode(&env, &scn.schema, v, Layout::default()).expect("HARNESS: reference encoder rejected a generated value");
+			bytes.extend_from_slice(&b);
+		}
+		bytes.extend_from_slice(&TRAILER);
+		let slice_out = world::decode_stream_slice(&schema, &env, &scn.schema, &bytes, n as usize, scn.target, scn.limits);
+		out.evals += 1;
+		let mut digest = Fnv::new();
+		digest.u64(slice_out.items.len() as u64).u64(slice_out.consumed as u64);
+		if let Some(p) = &slice_out.panicked {
+			out.fail(format!("C11:stream:slice-panic:{}", crate::runner::panic_site(p)), format!("after {} datums: {p}", slice_out.items.len()));
+			return;
+		}
+		// the slice path on reference encodings of valid values: every datum decodes, to the value written (capturing targets)
+		// (other targets may legitimately refuse a value: a str asked of bytes that are not UTF-8 ...; for them only the
+		// slice / reader comparison below applies)
+		if scn.target == Target::capture() {
+			if let Some((i, Err(e))) = slice_out.items.iter().enumerate().find(|(_, r)| r.is_err()) {
+				out.fail("C11:stream:slice-rejects-valid-datum", format!("datum #{i} of {n}: {e}"));
+				return;
+			}
+			if let Some(i) = slice_out.items.iter().zip(&vals).position(|(a, b)| a.as_ref().ok() != Some(b)) {
+				out.fail("C11:stream:slice-value-differs", format!("datum #{i} of {n}: got {:?}, written {:?}", slice_out.items[i], vals[i]));
+				return;
+			}
+		}
+		let plans = match &scn.plans {
+			Plans::Enumerate { seed } => stream_plans(*seed),
+			Plans::Only(p) => p.clone(),
+		};
+		for kind in &plans {
+			let (r, stats) = world::decode_stream_reader(&schema, &env, &scn.schema, &bytes, n as usize, scn.target, scn.limits, kind);
+			out.evals += 1;
+			out.steps += stats.calls;
+			digest.u64(stats.digest).u64(r.items.len() as u64).u64(r.consumed as u64);
+			let mut sig = Fnv::new();
+			sig.str("c11-stream").str(scn.target.label()).u64(pattern as u64).u64(kind_class(kind)).u64((n / 256) as u64).u64((stats.read_calls > 0) as u64);
+			out.sig(sig);
+			if stats.read_calls > 0 {
+				out.count("reader_bytewise_or_scratch_path", 1);
+			}
+			if let Some(p) = &r.panicked {
+				out.fail(format!("C11:stream:reader-panic:{}", crate::runner::panic_site(p)), format!("plan {}: after {} datums: {p}", kind.label(), r.items.len()));
+				break;
+			}
+			if !stats.contract_violations.is_empty() {
+				out.fail("C11:stream:bufread-contract", format!("{} with {}", stats.contract_violations[0], kind.label()));
+				break;
+			}
+			if stats.budget_exhausted {
+				out.fail("C11:stream:livelock", format!("source step budget exhausted with {}", kind.label()));
+				break;
+			}
+			if let Some(i) = (0..slice_out.items.len().max(r.items.len())).find(|&i| slice_out.items.get(i) .map(|x| x.as_ref().ok()) != r.items.get(i).map(|x| x.as_ref().ok())) {
+				out.fail(
+					if r.items.get(i).map_or(false, |x| x.is_err()) { "C11:stream:slice-ok-reader-err" } else { "C11:stream:value-differs" },
+					format!("plan {}: datum #{i} of {n}: slice gave {:?}, reader gave {:?}", kind.label(), slice_out.items.get(i), r.items.get(i)),
+				);
+				break;
+			}
+			// (on an error consumption is not compared: the property speaks of success)
+			if slice_out.items.iter().all(|x| x.is_ok()) && slice_out.consumed != r.consumed {
+				out.fail("C11:stream:consumed-differs", format!("plan {}: slice consumed {}, reader consumed {}", kind.label(), slice_out.consumed, r.consumed));
+				break;
+			}
+		}
+		out.digest = digest.get();
+	}
+
 	fn exec_datum(&self, scn: &Scn, out: &mut Outcome) {
 		if scn.bytes.len() >= 8192 {
 			out.count("scale_input_of_8_kib_or_more", 1);
@@ -390,6 +502,40 @@ impl Prop for C11 {
 		if run % 8 == 7 {
 			return container::gen_c11_container(rng);
 		}
+		if rng.chance(1, 300) {
+			// a LONG stream of datums through one deserializer state
+			let schema = match rng.below(10) {
+				0 => Ty::String,
+				1 => Ty::Bytes,
+				2 => Ty::Record { name: 0, fields: vec![(0, Ty::Int), (1, Ty::String)] },
+				3 => Ty::Union(vec![Ty::Null, Ty::String]),
+				4 => Ty::Array(Box::new(Ty::String)),
+				5 => Ty::Long,
+				6 => Ty::Map(Box::new(Ty::Bytes)),
+				7 => Ty::Record { name: 0, fields: vec![(0, Ty::Bytes), (1, Ty::Double), (2, Ty::String)] },
+				_ => {
+					let cfg = GenCfg::default_swarm(rng);
+					ast::gen_schema(rng, cfg)
+				}
+			};
+			let n = match rng.below(3) {
+				0 => 250 + rng.below(20) as u32,
+				1 => 257 + rng.below(300) as u32,
+				_ => 500 + rng.below(700) as u32,
+			};
+			let pattern = rng.below(7) as u8;
+			let target = if rng.chance(2, 3) { Target::capture() } else { gen_target(rng) };
+			return Scn {
+				mode: Mode::Stream { seed: rng.next_u64(), n: if pattern == 2 || pattern == 3 || pattern == 6 { n.min(700) } else { n }, pattern },
+				schema,
+				bytes: vec![],
+				gen_kind: "long-stream".into(),
+				tokens: vec![],
+				target,
+				plans: Plans::Enumerate { seed: rng.next_u64() },
+				limits: Limits::sim_default(),
+			};
+		}
 		let corner = ast::corner_schemas();
 		let mut scale = None;
 		let schema = if rng.chance(1, 40) {
@@ -546,12 +692,39 @@ impl Prop for C11 {
 		match scn.mode {
 			Mode::Datum | Mode::SingleObject => self.exec_datum(scn, &mut out),
 			Mode::Container { valid } => container::exec_c11_container(scn, valid, &mut out),
+			Mode::Stream { seed, n, pattern } => self.exec_stream(scn, seed, n, pattern, &mut out),
 		}
 		out
 	}
 
 	fn shrink(&self, scn: &Scn) -> Vec<Scn> {
 		let mut c = vec![];
+		if let Mode::Stream { seed, n, pattern } = scn.mode {
+			match &scn.plans {
+				Plans::Enumerate { seed } => {
+					for p in stream_plans(*seed) {
+						let mut s = scn.clone();
+						s.plans = Plans::Only(vec![p]);
+						c.push(s);
+					}
+				}
+				Plans::Only(_) => {
+					for nn in [n / 2, n - n / 8 - 1, n - 1] {
+						if nn > 0 && nn < n {
+							let mut s = scn.clone();
+							s.mode = Mode::Stream { seed, n: nn, pattern };
+							c.push(s);
+						}
+					}
+					if scn.target != Target::capture() {
+						let mut s = scn.clone();
+						s.target = Target::capture();
+						c.push(s);
+					}
+				}
+			}
+			return c;
+		}
 		// 1. a single plan instead of the enumeration
 		if let Plans::Enumerate { seed } = &scn.plans {
 			let all = match scn.mode {
